@@ -32,16 +32,24 @@ pub type Map = BTreeMap<String, OpFn>;
 
 // ---------------------------------------------------------------- fields
 
-pub trait HF: Sized + Copy {
+pub trait HF: Sized + Copy + PartialEq {
     const N8: usize;
+    /// the crate's deliberately non-canonical marker value (only Fq has one)
+    fn is_marker(&self) -> bool {
+        false
+    }
     fn from_le_checked(b: &[u8]) -> Option<Self>;
     fn le_bytes(&self) -> Vec<u8>;
 }
 
 macro_rules! impl_hf {
-    ($F:ty, $n:expr) => {
+    ($F:ty, $n:expr, $marker:expr) => {
         impl HF for $F {
             const N8: usize = $n;
+            fn is_marker(&self) -> bool {
+                let f: fn(&$F) -> bool = $marker;
+                f(self)
+            }
             fn from_le_checked(b: &[u8]) -> Option<Self> {
                 let a: [u8; $n] = b.try_into().ok()?;
                 <$F>::from_bytes_checked(&a).ok()
@@ -52,9 +60,9 @@ macro_rules! impl_hf {
         }
     };
 }
-impl_hf!(Fq, 32);
-impl_hf!(Fr, 32);
-impl_hf!(Fp, 48);
+impl_hf!(Fq, 32, |x| *x == Fq::SENTINEL);
+impl_hf!(Fr, 32, |_| false);
+impl_hf!(Fp, 48, |_| false);
 
 /// hex integer (no leading zeros required) -> little-endian bytes padded to `n`.
 pub fn hexint_to_le(s: &str, n: usize) -> Result<Vec<u8>, Bad> {
@@ -83,8 +91,15 @@ pub fn parse_f<T: HF>(s: &str) -> Result<T, Bad> {
     T::from_le_checked(&hexint_to_le(s, T::N8)?).ok_or(Bad::Input)
 }
 
+/// Canonical integer of a field element; a value whose internal representation is not the one the checked parser produces for its own
+/// bytes (an unreduced residue) is flagged.
 pub fn fs<T: HF>(x: &T) -> String {
-    le_to_hexint(&x.le_bytes())
+    let h = le_to_hexint(&x.le_bytes());
+    match T::from_le_checked(&x.le_bytes()) {
+        Some(y) if y == *x && *x == y => h,
+        _ if x.is_marker() => h,
+        _ => format!("NONCANONICAL:{}", h),
+    }
 }
 
 pub fn parse_bytes(s: &str) -> Result<Vec<u8>, Bad> {
